@@ -65,9 +65,12 @@ structure Sem (σ : Type) where
   retOne : σ → σ × Option IErr
   finish : ScriptResult → ProgramState → σ → σ × Option IErr
 
-/-- laws of the gas registers that C29 relies on (C26 proves them for the real bookkeeping) -/
+/-- laws of the gas registers that C29 relies on (C26 proves them for the real bookkeeping). `σ` is the set of
+states in which `$cgas ≤ $ggas` (`inv`); accordingly `get_set` speaks about the pairs `gas_charge` writes, which keep
+that order (an earlier version asked `get_set` for ALL pairs, which contradicts `inv`: take `g = (1, 0)` — the laws
+were unsatisfiable and the theorems below vacuous; Props/C29 `spinLaws` now exhibits a lawful machine). -/
 structure GasLaws {σ : Type} (m : Sem σ) : Prop where
-  get_set : ∀ s g, m.cgas (m.setGas s g) = g.1 ∧ m.ggas (m.setGas s g) = g.2
+  get_set : ∀ s g, g.1 ≤ g.2 → m.cgas (m.setGas s g) = g.1 ∧ m.ggas (m.setGas s g) = g.2
   /-- ggas ≥ cgas is kept by the body (so `ggas - g` cannot underflow), and the body never raises `$ggas` -/
   body_mono : ∀ raw s, m.ggas (m.body raw s).1 ≤ m.ggas s
   receipt_gas : ∀ r s, m.ggas (m.appendPanicReceipt r s) = m.ggas s
